@@ -4,6 +4,7 @@ import (
 	"encoding/json"
 	"fmt"
 	"os"
+	"path/filepath"
 	"sort"
 	"strings"
 	"sync/atomic"
@@ -432,6 +433,18 @@ func run(c Case) (res vh.Result) {
 			// load (it happens with the machine under heavy load) - the case cannot be judged
 			if strings.Contains(cerr.Error(), "deployment timed out") || strings.Contains(cerr.Error(), "DeadlineExceeded") {
 				res.Inconclusive = fmt.Sprintf("deployment of the loaded workflow did not finish on core %d: %v", ci, cerr)
+				// keep what the core was doing for a later look, and do not let a core that may be wedged decide the following cases
+				if dir := os.Getenv("VERIF_REPLAY_DIR"); dir != "" && strings.Contains(cerr.Error(), "DeadlineExceeded") {
+					os.MkdirAll(dir, 0o755)
+					os.WriteFile(filepath.Join(dir, fmt.Sprintf("C15-note-core-not-answering-%d-%d.txt", os.Getpid(), time.Now().UnixNano())),
+						[]byte(res.Inconclusive+"\n\nworld log tail:\n"+strings.Join(w.LogLines(200), "\n")+"\n\ngoroutines of the core:\n"+w.Goroutines()), 0o644)
+				}
+				for _, cw := range []**simworld.World{&cores.on, &cores.off} {
+					if *cw != nil {
+						(*cw).Close()
+						*cw = nil
+					}
+				}
 				simworld.Discard()
 				return
 			}
